@@ -61,7 +61,10 @@ RULE = (
     '(regular series and irregular rows), SDATE/STIME/TSTEP-only files, '
     'ioapi_base.from_arrays, each optionally passed through '
     'add_time_variables (CF time/time_bounds synthesised from the IOAPI '
-    'metadata) - instants = date(Y,1,1) + (JJJ-1) days + HHMMSS by integer '
+    'metadata; half of these get a second phase on the SAME file object: '
+    'SDATE/STIME/TSTEP (and TFLAG where present) are re-stamped for another '
+    'period, add_time_variables runs again and getTimes() / '
+    'getTimes(bounds=True) must decode the new period) - instants = date(Y,1,1) + (JJJ-1) days + HHMMSS by integer '
     'arithmetic, exact equality; bounds=True = n instants + one more TSTEP; '
     'SDATE 1970001-2100365 weighted to leap days and year ends, STIME whole '
     'hours and HHMMSS, TSTEP from 15 s to 100 h.  tau: tau0/tau1 hours since '
@@ -80,7 +83,7 @@ ASSUMPTIONS = ['stdlib datetime (proleptic Gregorian day count) for instants '
                'descending time axes are left to C16 (time2idx front-end)',
                'numpy converts timezone-aware datetimes to UTC when building '
                'datetime64 arrays (checked on the installed numpy 2.5)']
-BUDGET = {'quick': dict(examples=12800, max_s=200),
+BUDGET = {'quick': dict(examples=9600, max_s=200),
           'thorough': dict(examples=200000, max_s=3000)}
 EXHAUSTIVE_NOTE = ('thorough tier: every (year 1970-2100, day of year, hour '
                    '0-23) as TFLAG rows at minute/second patterns 00:00, '
@@ -367,7 +370,12 @@ def case_ioapi(draw):
                 bounds=draw(st.booleans()),
                 synth=draw(st.sampled_from([False, False, True])),
                 nvar=draw(st.integers(1, 3)),
-                datetype=draw(st.sampled_from(DATETYPES)))
+                datetype=draw(st.sampled_from(DATETYPES)),
+                restamp=(dict(sdate=draw(sdates()),
+                              stime=draw(st.integers(0, 23)) * 10000 +
+                              draw(st.sampled_from([0, 0, 3000, 1530])),
+                              tstep=draw(st.sampled_from(TSTEPS[:-4])))
+                         if draw(st.booleans()) else None))
 
 
 @st.composite
@@ -1048,6 +1056,56 @@ def build_ioapi(spec):
 
 
 def check_ioapi(spec, r):
+    """phase 1 (fresh file) and, for synthesised CF time, an optional phase
+    2 on the SAME file object: the IOAPI time metadata (and TFLAG) are
+    re-stamped for another period, the CF variables are synthesised again
+    and must decode the new period"""
+    holder = {}
+    _ioapi_phase1(spec, r, holder)
+    rs = spec.get('restamp')
+    if not rs or not spec['synth'] or r.failures or 'f' not in holder or \
+            not holder.get('complete'):
+        return
+    from PseudoNetCDF.conventions.ioapi._ioapi import add_time_variables
+    f = holder['f']
+    n = spec['n']
+    want = CT.ioapi_series(rs['sdate'], rs['stime'], rs['tstep'], n)
+    step = dt.timedelta(seconds=CT.hhmmss_to_seconds(rs['tstep']))
+    rows = [list(CT.instant_to_flags(t)) for t in want]
+    f.SDATE = np.int32(rs['sdate'])
+    f.STIME = np.int32(rs['stime'])
+    f.TSTEP = np.int32(rs['tstep'])
+    if 'TFLAG' in f.variables:
+        f.variables['TFLAG'][:] = _tflag_array(
+            rows, f.variables['TFLAG'].shape[1])
+    r.label('restamped', 'restamped:' + ('with-TFLAG' if 'TFLAG' in
+                                         f.variables else 'attributes-only'))
+    with np.errstate(all='ignore'):
+        exc, _ = attempt(add_time_variables, f)
+    if exc is not None:
+        r.label('restamp-synth-raised')
+        return
+    klass = 'restamped/%s' % spec['form']
+    what = 're-stamped to SDATE=%d STIME=%06d TSTEP=%06d and synthesised ' \
+        'again on the same file (was SDATE=%d STIME=%06d TSTEP=%06d)' % (
+            rs['sdate'], rs['stime'], rs['tstep'], spec['sdate'],
+            spec['stime'], spec['tstep'])
+    for b in (False, True):
+        with np.errstate(all='ignore'):
+            exc, got = attempt(f.getTimes, bounds=b)
+        if exc is not None:
+            r.label('restamp-getTimes-raised')
+            return
+        if not cmp_instants(r, 'ioapi-instant-restamped', got,
+                            want + [want[-1] + step] if b else want, what,
+                            klass=klass + ('/bounds' if b else '') +
+                            ('/tstep>=100h' if rs['tstep'] >= 1000000
+                             else '')):
+            return
+    r.label('restamp-decoded-new-period')
+
+
+def _ioapi_phase1(spec, r, holder):
     from PseudoNetCDF.coordutil import gettimes
     form = spec['form']
     with np.errstate(all='ignore'):
@@ -1064,6 +1122,7 @@ def check_ioapi(spec, r):
             return
         raise exc
     f, want, step = built
+    holder['f'] = f
     if spec['stime'] % 10000:
         r.label('stime:HHMMSS')
     edges = want + [want[-1] + step]
@@ -1147,6 +1206,7 @@ def check_ioapi(spec, r):
         if im.any() or ia.tolist() != list(range(len(want))):
             r.fail('ioapi-time2idx', 'synthesised time: time2idx(getTimes())'
                    ' = %r' % (idx,), klass=klass)
+    holder['complete'] = True
 
 
 def check_enum(spec, r):
